@@ -535,7 +535,7 @@ def gen_values(ty: Ty, depth=2, ctx=None):
     if k == "real":
         return [0.0, 1.5, 10.0]
     if k == "str":
-        return ["", "a", "b\n"]
+        return ["a", "context", "", "b\n"]
     if k == "bytes":
         return [b"", b"a"]
     if k == "none":
